@@ -12,7 +12,7 @@ from vf.gen import structs as S
 
 ID = "C14"
 LEVEL = "exploration"
-RULE = ("case = generated hierarchy source: components in ragged nested lists (depth 1-3), interfaces (nested, in lists), caller/callee method ports, signals and ragged lists of signals of Bits/struct type (nested structs, "
+RULE = ("case = generated hierarchy source: components in ragged nested lists (depth 1-3, empty rows included), interfaces (nested, in lists), caller/callee method ports, signals and ragged lists of signals of Bits/struct type (nested structs, "
         "list fields), and field / slice / slice-of-field / list-element signals materialised through update-block reads "
         "(constant and variable indices) and connections; after elaborate(), over every object of "
         "get_all_object_filter plus all members of value nets: repr injective, eval(repr(o),{'s':top}) is o, "
